@@ -257,6 +257,22 @@ func c12RandOrder(rng *rand.Rand, keys *c14Keys, valid bool) c12Order {
 		c.MinUnits = units
 		c.SelfChanBal = rng.Int63n(c.Amt + 1)
 	}
+	if valid && rng.Intn(4) == 0 {
+		// outbound liquidity market: the order amount is one unit, an ask's
+		// minimum match (the channel the bidder opens) is legitimately larger
+		// (ParseRPCOrder skips the min-units <= units check for this market)
+		c.AuctionType = uint32(order.BTCOutboundLiquidity)
+		c.Amt, c.Units, c.Unfulfilled = 100000, 1, 1
+		c.SelfChanBal = 0
+		if c.Bid {
+			c.MinUnits = 1
+			if c.Version >= 3 {
+				c.SelfChanBal = int64(1+rng.Intn(50)) * 100000
+			}
+		} else {
+			c.MinUnits = uint64(1 + rng.Intn(50))
+		}
+	}
 	if valid {
 		return c
 	}
@@ -556,6 +572,10 @@ func (e *c12Env) submitCase(r *Run, c c12Order, rng *rand.Rand, replay interface
 		side = "bid"
 	}
 	r.Count(fmt.Sprintf("submit/%s/v%d", side, c.Version))
+	r.Count(fmt.Sprintf("submit/market%d/%s", c.AuctionType, side))
+	if c.MinUnits > c.Units {
+		r.Count("submit/minunits>units")
+	}
 	if c.Bid && c.Sidecar {
 		r.Count("submit/sidecar")
 	}
@@ -631,6 +651,21 @@ func (e *c12Env) submitRaw(r *Run, c c12Order, rng *rand.Rand) {
 			rd = c12Digest(rb)
 		}
 		out = "ok " + c12WireString(e.srv.got) + " " + rd
+		// oracle (no signature involved here): whatever SubmitOrder transmits
+		// for an order whose min match fits the wire field (MinUnitsMatch *
+		// 100000 < 2^64) must let the receiver re-derive the digest the
+		// trader would sign for that order
+		want := c12Digest(o)
+		if c.MinUnits < math.MaxUint64/100000 && strings.HasPrefix(want, "ok:") {
+			r.Count("submitraw/oracle-evaluated")
+			if rd != want {
+				r.Count("oracle/violation")
+				r.Violate("digest re-derived from the transmitted fields ("+rd+") differs from the order's digest "+
+					want+"; received "+c12WireString(e.srv.got),
+					fmt.Sprintf("C12/sent-not-signed/raw/v%d", c.Version),
+					map[string]interface{}{"op": "submitraw", "order": c, "seed": r.Seed})
+			}
+		}
 	}
 	r.Emit(fmt.Sprintf("C12 submit %s %s %s %s", c.tok(), c14Hex(params.RawSig), c14Hex(params.MultiSigKey[:]),
 		c14Hex(params.NodePubkey[:])), out)
@@ -660,6 +695,8 @@ func runC12(r *Run) {
 		switch f.Op {
 		case "term":
 			e.termCase(r, f.Order, rng)
+		case "submitraw":
+			e.submitRaw(r, f.Order, rng)
 		case "submit":
 			// keys of a replayed submit case come from the recorded seed
 			e2 := newC12Env(f.Seed)
@@ -674,7 +711,7 @@ func runC12(r *Run) {
 		e.termCase(r, c12RandOrder(r.Rng, e.keys, r.Rng.Intn(3) == 0), r.Rng)
 		for j := 0; j < 2; j++ {
 			c := c12RandOrder(r.Rng, e.keys, true)
-			if c.Bid && c.Version >= 4 && c.SelfChanBal == 0 && r.Rng.Intn(2) == 0 {
+			if c.Bid && c.Version >= 4 && c.SelfChanBal == 0 && c.AuctionType == 0 && r.Rng.Intn(2) == 0 {
 				c.Sidecar = true
 				c.MinUnits = c.Units
 			}
